@@ -1,2 +1,99 @@
-(* C01 *)
-From Grex Require Import Base.Str.
+(* C01 — the generated regular expression matches every test case.
+
+   Languages: L_expr lit cls e is the language of the expression e when a literal code point
+   a accepts {x | lit a x} and the class token \l accepts {x | cls l x} (Proofs/Lang.v).
+   Spec_str lit cls c t is the language documented for one test case t: same number of code
+   points, each accepted by the token that the corresponding code point of t is converted to
+   (Proofs/Spec.v).  lit_cs / lit_ci / cls_engine: Proofs/EngineDen.v.
+
+   Hypotheses that appear below:
+     oracle_ok     the per-case Unicode oracle data has one category entry per code point
+                   (checked by the harness on every case)
+     no_merge      the trie construction never takes the widening branch (known finding K1;
+                   automatic when repetitions are not converted: C02, C05)
+     K4            known finding: the empty test case next to a non-empty one is lost
+     skew_set      known finding K3: code points whose lower-casing leaves the engine's
+                   simple case folding class *)
+From Grex Require Import Base.Str Base.Ranges Model.Config Model.Cluster Model.Dfa Model.Expr
+  Model.Pipeline.
+From Grex Require Import Proofs.Lang Proofs.Spec Proofs.FoldTables Proofs.EngineDen
+  Proofs.Construction Proofs.PropsGlue.
+From GrexGen Require Import GrexTables OracleTables.
+
+(* (a) every (normalised) test case that satisfies its own specification is accepted;
+       any denotation of literals and classes *)
+Theorem C01_sound_expr : forall (lit cls : cp -> cp -> Prop) c db sc ws e t,
+  ws <> [] ->
+  oracle_ok db (normalise c db ws) ->
+  no_merge (grapheme_clusters c db (normalise c db ws)) = true ->
+  Pipeline.final_expr c (grapheme_clusters c db (normalise c db ws)) sc = Some e ->
+  In t ws ->
+  let t' := if f_ci c then lower' db t else t in
+  (t' <> [] \/ K4 (normalise c db ws) = false) ->
+  Spec_str lit cls c t' t' ->
+  L_expr lit cls e t'.
+Proof. exact sound_expr. Qed.
+
+(* (b) with the engine's classes every string of Unicode scalar values satisfies its own
+       specification: the side condition of (a) *)
+Theorem C01_self_accept : forall c s,
+  Forall (fun x => is_scalar x = true) s -> Spec_str lit_cs cls_engine c s s.
+Proof. exact Spec_str_self. Qed.
+
+Theorem C01_self_accept_ci : forall c s,
+  Forall (fun x => is_scalar x = true) s -> Spec_str lit_ci cls_engine c s s.
+Proof. exact Spec_str_self_ci. Qed.
+
+(* (a) + (b): case-sensitive matching, every test case is accepted *)
+Theorem C01_sound_case_sensitive : forall c db sc ws e t,
+  f_ci c = false ->
+  ws <> [] ->
+  oracle_ok db (normalise c db ws) ->
+  no_merge (grapheme_clusters c db (normalise c db ws)) = true ->
+  Pipeline.final_expr c (grapheme_clusters c db (normalise c db ws)) sc = Some e ->
+  In t ws ->
+  Forall (fun x => is_scalar x = true) t ->
+  (t <> [] \/ K4 (normalise c db ws) = false) ->
+  L_expr lit_cs cls_engine e t.
+Proof. exact sound_cs. Qed.
+
+(* (c) under (?i) the ORIGINAL test case is accepted by the expression built from the
+       lower-cased one, when lower-casing t is code-point-wise (lower1) and no code point of t
+       is in the skew set *)
+Theorem C01_ci_original_codepoint : forall c x,
+  is_scalar x = true -> mem_cp x skew_set = false ->
+  den_str lit_ci cls_engine (class_token c class_chain (lower1 x)) [x].
+Proof. exact token_lower_accepts_original. Qed.
+
+Theorem C01_ci_original : forall c db sc ws e t,
+  f_ci c = true ->
+  ws <> [] ->
+  oracle_ok db (normalise c db ws) ->
+  no_merge (grapheme_clusters c db (normalise c db ws)) = true ->
+  Pipeline.final_expr c (grapheme_clusters c db (normalise c db ws)) sc = Some e ->
+  In t ws ->
+  lower' db t = map lower1 t ->
+  Forall (fun x => is_scalar x = true /\ mem_cp x skew_set = false) t ->
+  (t <> [] \/ K4 (normalise c db ws) = false) ->
+  L_expr lit_ci cls_engine e t.
+Proof. exact ci_original. Qed.
+
+(* (d) the trie stage accepts every specified string even when edges are merged *)
+Theorem C01_trie_sound_with_merge : forall (lit cls : cp -> cp -> Prop) c db ws t,
+  oracle_ok db (normalise c db ws) ->
+  trie_of (grapheme_clusters c db (normalise c db ws)) = Some t ->
+  lsub (Spec lit cls c db ws) (L_dfa lit cls t).
+Proof. exact construction_sound_trie. Qed.
+
+(* (e) a regular expression is always produced *)
+Theorem C01_total : forall isd c db sc ws, exists s, build isd c db sc ws = Some s.
+Proof. exact build_total. Qed.
+
+Print Assumptions C01_sound_expr.
+Print Assumptions C01_self_accept.
+Print Assumptions C01_self_accept_ci.
+Print Assumptions C01_sound_case_sensitive.
+Print Assumptions C01_ci_original_codepoint.
+Print Assumptions C01_ci_original.
+Print Assumptions C01_trie_sound_with_merge.
+Print Assumptions C01_total.
